@@ -214,6 +214,13 @@ def decoder_transforms(an, prog):
                     continue
                 names = []
                 for _, tt, c in arm_calls(an, b, blk, tb):
+                    if c.local and c.kind == "Item" and not c.trait and c.path in prog.bodies and c.path != c04.DN_PARSE:
+                        # private helper: its own calls are the transform chain
+                        hb = prog.bodies[c.path]
+                        for _, _, hc in hb.calls():
+                            if hc is not None:
+                                names.append(hc.npath if (hc.npath in INVERSE_OF or not hc.trait) else hc.nsyn)
+                        continue
                     names.append(c.npath if (c.npath in INVERSE_OF or not c.trait) else c.nsyn)
                 out[name[0]] = names
             break
@@ -242,7 +249,7 @@ def codec_rule(ctx, prog, an, rule):
             continue
         c = cons[0]
         dec_calls = [x for x in trans.get(kind, []) if x not in LOSSLESS_DECODE and not x.startswith("nom::") and not x.startswith("nom_derive::")
-                     and "DataNumber::parse" not in x and "parse_unknown_fields" not in x]
+                     and "DataNumber::parse" not in x and x not in ("nom::error::Error::new", "nom::error::make_error")]
         if c[0] == "datanumber":
             # numeric kinds: per width
             signed = c[2] == {1}
